@@ -1,14 +1,14 @@
 (* C10, type references: print then parse is the identity, for every nesting depth within the
    recursion limit. *)
-From ApolloVerif Require Import Base.Chars Ast.TypeRef.
+From ApolloVerif Require Import Base.Chars Ast.Ast Ast.TypeRef.
 From Coq Require Import ZifyBool ZifyN.
 
-Fixpoint tref_toks (t : tref) : list trtok :=
+Fixpoint tref_toks (t : ty) : list trtok :=
   match t with
-  | TrNamed n => [TtName n]
-  | TrNonNullNamed n => [TtName n; TtBang]
-  | TrList i => TtLBrack :: tref_toks i ++ [TtRBrack]
-  | TrNonNullList i => TtLBrack :: tref_toks i ++ [TtRBrack; TtBang]
+  | TNamed n => [TtName n]
+  | TNonNullNamed n => [TtName n; TtBang]
+  | TList i => TtLBrack :: tref_toks i ++ [TtRBrack]
+  | TNonNullList i => TtLBrack :: tref_toks i ++ [TtRBrack; TtBang]
   end.
 
 (* the text after a name does not continue the name *)
@@ -137,13 +137,4 @@ Proof.
   intros Hwf Hd. unfold tref_parse.
   rewrite <- (app_nil_r (tref_print t)), (lex_print t Hwf [] I).
   cbn [tref_lex trtok_flush option_map]. now rewrite (parse_toks_limit t limit [] Hd).
-Qed.
-
-(* tref_eqb is equality (used by Compat) *)
-Lemma tref_name_eqb_eq a b : tref_name_eqb a b = true <-> a = b.
-Proof.
-  revert b. induction a as [|x a IH]; destruct b as [|y b]; cbn [tref_name_eqb];
-    try (split; [discriminate|congruence]).
-  - tauto.
-  - rewrite andb_true_iff, IH, N.eqb_eq. split; [intros [-> ->]; reflexivity|intros [= -> ->]; auto].
 Qed.
